@@ -61,17 +61,39 @@ pub struct Release {
     /// Date the release was published
     pub date: String,
 
-    #[deb822(field = "NotAutomatic")]
+    #[deb822(field = "NotAutomatic", deserialize_with = deserialize_flag)]
     /// Whether the release is not automatic
     pub not_automatic: bool,
 
-    #[deb822(field = "ButAutomaticUpgrades")]
+    #[deb822(field = "ButAutomaticUpgrades", deserialize_with = deserialize_flag)]
     /// Indicates if packages retrieved from this release should be automatically upgraded
     pub but_automatic_upgrades: bool,
 
-    #[deb822(field = "Acquire-By-Hash")]
+    #[deb822(field = "Acquire-By-Hash", deserialize_with = deserialize_flag)]
     /// Whether packages files can be acquired by hash
     pub acquire_by_hash: bool,
+}
+
+// Boolean fields are written "yes" / "no" in Release, Sources and Packages files
+fn deserialize_yesno(s: &str) -> Result<bool, String> {
+    match s {
+        "yes" => Ok(true),
+        "no" => Ok(false),
+        _ => Err(format!("invalid value for yes/no field: {}", s)),
+    }
+}
+
+fn serialize_yesno(b: &bool) -> String {
+    if *b { "yes" } else { "no" }.to_string()
+}
+
+// Release files say "yes" / "no"; "true" / "false" is what this type prints
+fn deserialize_flag(s: &str) -> Result<bool, String> {
+    match s {
+        "true" => Ok(true),
+        "false" => Ok(false),
+        _ => deserialize_yesno(s),
+    }
 }
 
 fn deserialize_binaries(value: &str) -> Result<Vec<String>, String> {
@@ -137,7 +159,7 @@ pub struct Source {
     /// Homepage of the source
     pub homepage: Option<String>,
 
-    #[deb822(field = "Autobuild")]
+    #[deb822(field = "Autobuild", deserialize_with = deserialize_yesno, serialize_with = serialize_yesno)]
     /// Whether the source should be autobuilt
     pub autobuild: Option<bool>,
 
@@ -297,7 +319,7 @@ pub struct Package {
     pub section: Option<String>,
 
     /// Essential
-    #[deb822(field = "Essential")]
+    #[deb822(field = "Essential", deserialize_with = deserialize_yesno, serialize_with = serialize_yesno)]
     pub essential: Option<bool>,
 
     /// Tag
